@@ -1409,8 +1409,11 @@ class _Streamer(mcasm.Streamer):
         if self._state.current_block.size:
             self._split_block(add_fallthrough=True)
 
-        self._state.current_section.alignment[self._state.current_block] = (
-            alignment
+        # Several alignment directives can apply to the same position; the
+        # strictest one wins.
+        block_alignment = self._state.current_section.alignment
+        block_alignment[self._state.current_block] = max(
+            block_alignment.get(self._state.current_block, 1), alignment
         )
 
     @_convert_errors_and_return(True)
